@@ -1937,6 +1937,8 @@ def clone(v):
         }
 
         config = type(v)(**kwargs)
+        # The meta flag is part of what the configuration is for whatever holds it
+        config.__xpm__._meta = v.__xpm__._meta
         return config
 
     raise NotImplementedError("Clone not implemented for type %s" % type(v))
